@@ -3,6 +3,7 @@ import argparse
 import importlib
 import json
 import os
+import re
 import sys
 import time
 import traceback
@@ -61,7 +62,15 @@ def main():
                 broken.append(('coqchk:props/%s.vo' % prop, out[-800:]))
     if not proof['ok']:
         what = proof['failed_theorem'] or (proof['bad_axioms'] and 'axioms') or 'props/%s.v' % prop
-        broken.append(('theorem:%s' % what, proof['error'] or ('unexpected axioms: %s' % proof['bad_axioms'])))
+        detail = proof['error'] or ('unexpected axioms: %s' % proof['bad_axioms'])
+        if not ok and 'inconsistent assumptions' in detail:
+            # the statement file was refused because a proof file it depends on no longer compiles against the regenerated
+            # constants: name the proof obligation that actually failed
+            m = re.search(r'File "\./((?:proofs|model|corr|gen)/[^"]+)", line (\d+)[^\n]*\n(Error[^\n]*(?:\n[^\n]+){0,8})', log)
+            if m:
+                detail = 'proof obligation in %s (line %s) no longer checks:\n%s\n-- hence: %s' % (
+                    m.group(1), m.group(2), m.group(3), detail[-300:])
+        broken.append(('theorem:%s' % what, detail))
     model_ok = all(os.path.exists(os.path.join(common.COQ, t)) for t in mod.MODEL_TARGETS) and \
         not any(f.replace('.v', '.vo') in mod.MODEL_TARGETS or f in mod.MODEL_TARGETS for f in failed)
 
